@@ -424,6 +424,11 @@ func writeEvidenceRS(root, id, tier string, seed int, rs *runSummary, pc *PropCo
 			if c.Trusted && c.Used {
 				usedTrusted = append(usedTrusted, "trusted contract: "+k)
 			}
+			for _, cl := range c.Ensures {
+				if cl.Assumed && c.Used {
+					usedTrusted = append(usedTrusted, "unverified summary postcondition of "+k+": "+cl.Text)
+				}
+			}
 		}
 		for _, a := range e.cons.Axioms {
 			if !a.Lemma {
